@@ -29,7 +29,7 @@ if [ "${SKIP_DEMO:-0}" != 1 ]; then
 (cd "$S" && go build ./... && go test -vet=off -count=1 ./... 2>&1 | grep -v '^ok\|no test files' | head -5; exit ${PIPESTATUS[0]}) && echo "suite-with-patch: pass (ok)" || echo "suite-with-patch: FAIL"
 rundemo >/dev/null 2>&1 && echo "patched-demo: PASS (seed does not manifest?)" || echo "patched-demo: fail (ok)"
 fi
-VERIF_REPO="$S" "$(dirname "$0")/../check" "$prop" "$tier" > "$S/out.txt" 2>&1; rc=$?
+VERIF_OUT_DIR="$S/zz_verif_out" VERIF_REPO="$S" "$(dirname "$0")/../check" "$prop" "$tier" > "$S/out.txt" 2>&1; rc=$?
 grep -E '^(RESULT|INCONCLUSIVE)' "$S/out.txt" | head -3
 grep -A2 '^VIOLATION' "$S/out.txt" | grep -v '^VIOLATION\|^--' | head -${SEED_LINES:-4} | cut -c1-260
 echo "check($tier) exit=$rc  => $([ $rc = 1 ] && echo CAUGHT || echo MISSED)"
